@@ -208,17 +208,17 @@ def runRequest (s : State) (route : String) (i : Ident) (client : Scope) :
     Option (State × MsgReply × Bytes × Scope × Bool) :=
   let (cs, hasECS) := clientScopes s client
   let W := world s
-  -- `handleCacheHit` claims and queues the refresh right after verifying the hit, before any
-  -- chase: whatever the reply turns out to be, a due first entry of the decoded body is queued
+  -- `handleCacheHit` claims and queues the refresh right after verifying a hit, before any chase, with
+  -- a copy of the request at hand — for the client's own hit and for every hop the decoded chase hits
   let queued := fun (p : Bytes) (viaDecoded : Bool) =>
-    match viaDecoded, serveMsg H W p i.qtype i.qclass i.cd cs hasECS with
-    | true, Outcome.hit (e :: _) =>
-      if due s e then
-        { s with claimed := e.id :: s.claimed,
-                 queue := s.queue ++ [((CacheKey.mk p i.qtype i.qclass i.cd none).hash H, e,
-                                       ({ name := p, qtype := i.qtype, qclass := i.qclass, cd := i.cd, hasECS := hasECS } : Req))] }
-      else s
-    | _, _ => s
+    if !viaDecoded then s else
+    (msgVisitsAt H W i.qtype i.cd hasECS maxCnameChaseDepth p i.qclass cs).foldl (fun (acc : State) (v : Bytes × Entry) =>
+      let (n, e) := v
+      if due acc e then
+        { acc with claimed := e.id :: acc.claimed,
+                   queue := acc.queue ++ [((CacheKey.mk n i.qtype i.qclass i.cd none).hash H, e,
+                                           ({ name := n, qtype := i.qtype, qclass := i.qclass, cd := i.cd, hasECS := hasECS } : Req))] }
+      else acc) s
   match route, i.name with
   | "wire", Name.wire wn =>
     match present wn with
@@ -390,11 +390,20 @@ def stepPipe (s : State) (w : List String) : State × String :=
             let hasECS := client.isSome
             let reply := additionalAnswer (fun t => msgReplyAt H W rt respCD hasECS (maxCnameChaseDepth - 1) t rc none) rn rt fresh
             let rs := (showReply reply).replace " " "_"
+            let hops := additionalVisits (fun t => msgReplyAt H W rt respCD hasECS (maxCnameChaseDepth - 1) t rc none)
+              (fun t => msgVisitsAt H W rt respCD hasECS (maxCnameChaseDepth - 1) t rc none) rn rt fresh
+            let s := hops.foldl (fun (acc : State) (v : Bytes × Entry) =>
+              let (n, e) := v
+              if due acc e then
+                { acc with claimed := e.id :: acc.claimed,
+                           queue := acc.queue ++ [((CacheKey.mk n rt rc respCD none).hash H, e,
+                                                   ({ name := n, qtype := rt, qclass := rc, cd := respCD, hasECS := hasECS } : Req))] }
+              else acc) s
             ({ s with st := st, fs := fs }, s!"ans {id} key={hex16 key} scope={fmtScope (normalizeKeyScope sc)} reply={rs}")
         | _ => (s', showReply o)
       | none => (s, "bad-op")
     | _, _, _ => (s, "bad-op")
-  | ["pipe", "set", spec, ids, idn, al] =>
+  | "pipe" :: "set" :: spec :: ids :: idn :: al :: _rr =>
     match parseIdent ids, idn.toNat? with
     | some i, some id =>
       match i.name.presentation, resolveKey spec i with
